@@ -3,6 +3,7 @@ package main
 import (
 	"fmt"
 	"go/token"
+	"sort"
 	"strings"
 
 	"golang.org/x/tools/go/ssa"
@@ -273,5 +274,180 @@ func ruleR1_9(w *World, r *Report) {
 	}
 	if n == 0 {
 		r.Unk("R1.9", "decision function", "-", "no parameterless method of Solver returning a Lit and consuming the decision queue")
+	}
+}
+
+// R1.10: conflict analysis reads conflict and reason constraints whole.
+//
+// The implied literal of a reason is not at a fixed position (cardinality constraints imply several literals; clause
+// watches are swapped), so every loop of the clause analyser and of its helpers that walks a constraint with Get(i)
+// starts at 0 and ends at Len(): skipping a position drops a literal the derivation depends on, and the learned
+// clause is then neither implied nor RUP.
+func ruleR1_10(w *World, r *Report) {
+	r.Rule("R1.10", "in the clause-learning analyser and the functions it calls, every loop that reads a conflict or reason constraint through Get(i) visits all positions 0..Len()-1 of that constraint", 3)
+	var roots []*ssa.Function
+	for _, an := range conflictAnalysers(w) {
+		reads := false
+		allInstrs(an, func(ins ssa.Instruction) {
+			if u, ok := ins.(*ssa.UnOp); ok && u.Op == token.MUL {
+				if o, f, _, ok := fieldOf(u.X); ok && o == "solver.Solver" && f == "assumptions" {
+					reads = true
+				}
+			}
+		})
+		if reads {
+			roots = append(roots, an)
+		}
+	}
+	if len(roots) == 0 {
+		r.Unk("R1.10", "clause-learning analyser", "-", "no conflict analyser reads Solver.assumptions")
+		return
+	}
+	getter := w.Func("solver", "Clause.Get")
+	lenFn := w.Func("solver", "Clause.Len")
+	if getter == nil || lenFn == nil {
+		r.Unk("R1.10", "(*solver.Clause).Get / Len", "-", "accessor not found")
+		return
+	}
+	for _, root := range roots {
+		fns := []*ssa.Function{root}
+		for _, ci := range callsIn(root) {
+			for _, c := range w.Callees[ci] {
+				if w.PkgName(c) == "solver" && c.Signature.Recv() != nil && typeShort(c.Signature.Recv().Type()) == "*solver.Solver" && c != root {
+					fns = append(fns, c)
+				}
+			}
+		}
+		seenFn := map[*ssa.Function]bool{}
+		for _, fn := range fns {
+			if seenFn[fn] {
+				continue
+			}
+			seenFn[fn] = true
+			k := 0
+			for _, ci := range callsIn(fn) {
+				c, ok := ci.(*ssa.Call)
+				if !ok || !w.staticCalleeIs(c, getter) || len(c.Call.Args) != 2 || !inLoop(fn, c.Block()) {
+					continue
+				}
+				recv, idx := c.Call.Args[0], c.Call.Args[1]
+				// only loops over a constraint that is not the function's own output
+				k++
+				key := fmt.Sprintf("%s constraint scan #%d", w.FuncName(fn), k)
+				full := fullRangeIndex(idx, func(b ssa.Value) bool {
+					lc, ok := b.(*ssa.Call)
+					return ok && w.staticCalleeIs(lc, lenFn) && len(lc.Call.Args) == 1 && lc.Call.Args[0] == recv
+				})
+				r.Check(full, "R1.10", key, w.InstrPos(c), "index runs from 0 to Len()-1 of the constraint read",
+					"the loop does not visit every position of the constraint it reads (start other than 0, step other than 1, or bound other than its Len()): a literal of the conflict / reason is left out of the analysis, so the learned clause is not implied by the constraints it was derived from")
+			}
+		}
+	}
+}
+
+// R1.11: a search loop is left for a restart only after the pending literal was bound.
+//
+// The literal carried into an iteration may be the asserting literal of the clause learned in the previous one: its
+// reason is already recorded (R1.8) and the clause is locked. Leaving the loop before that literal is bound (and so put
+// on the trail, from where retraction clears the reason) leaves a reason on an unbound variable; when the variable is
+// later decided, conflict analysis resolves through a clause that never implied it.
+func ruleR1_11(w *World, r *Report) {
+	r.Rule("R1.11", "in every search loop, a return of Indet (restart) is dominated, within the iteration, by the call that binds the literal carried into the iteration", 2)
+	indet, ok := w.statusConst("Indet")
+	if !ok {
+		r.Unk("R1.11", "status constants", "-", "Indet not found")
+		return
+	}
+	an := map[*ssa.Function]bool{}
+	for _, f := range conflictAnalysers(w) {
+		an[f] = true
+	}
+	n := 0
+	for _, fn := range w.Fns {
+		if w.PkgName(fn) != "solver" {
+			continue
+		}
+		callsAn := false
+		for _, ci := range callsIn(fn) {
+			for _, c := range w.Callees[ci] {
+				if an[c] {
+					callsAn = true
+				}
+			}
+		}
+		if !callsAn {
+			continue
+		}
+		for _, h := range loopHeaders(fn) {
+			body := loopBlocks(fn, h)
+			// the literal carried by the loop: a phi of type Lit in the header
+			var litPhi *ssa.Phi
+			for _, ins := range h.Instrs {
+				if p, ok := ins.(*ssa.Phi); ok && typeShort(p.Type()) == "solver.Lit" {
+					litPhi = p
+				}
+			}
+			if litPhi == nil {
+				continue
+			}
+			// binding calls: calls in the loop taking the carried literal and returning *Clause
+			var binds []*ssa.Call
+			for b := range body {
+				for _, ins := range b.Instrs {
+					if c, ok := ins.(*ssa.Call); ok && typeShort(c.Type()) == "*solver.Clause" {
+						for _, a := range c.Call.Args {
+							if a == ssa.Value(litPhi) {
+								binds = append(binds, c)
+							}
+						}
+					}
+				}
+			}
+			if len(binds) == 0 {
+				continue
+			}
+			n++
+			key := fmt.Sprintf("%s restarts only after binding the pending literal", w.FuncName(fn))
+			var bad []string
+			nRet := 0
+			for _, b := range fn.Blocks {
+				// exits taken from inside the loop: blocks the header dominates that are not part of the cycle
+				if !h.Dominates(b) || body[b] {
+					continue
+				}
+				fromLoop := false
+				for _, p := range b.Preds {
+					if body[p] {
+						fromLoop = true
+					}
+				}
+				ret, ok := b.Instrs[len(b.Instrs)-1].(*ssa.Return)
+				if !ok || len(ret.Results) != 1 || !fromLoop {
+					continue
+				}
+				if k, isK := constInt(ret.Results[0]); !isK || k != indet {
+					continue
+				}
+				nRet++
+				dominated := false
+				for _, c := range binds {
+					if instrDominates(c, ret) {
+						dominated = true
+					}
+				}
+				if !dominated {
+					bad = append(bad, w.InstrPos(ret))
+				}
+			}
+			if len(bad) > 0 {
+				sort.Strings(bad)
+				r.Bad("R1.11", key, bad[0], "the loop can be left with Indet at "+strings.Join(bad, ", ")+" before the literal carried into the iteration is bound: when it is the asserting literal of the last learned clause, its recorded reason survives on an unbound variable and corrupts later conflict analysis")
+			} else {
+				r.OK("R1.11", key, w.InstrPos(binds[0]), fmt.Sprintf("%d restart exit(s), each after the binding", nRet))
+			}
+		}
+	}
+	if n < 2 {
+		r.Unk("R1.11", "search loops", "-", fmt.Sprintf("%d search loop(s) carrying a literal found, expected one per strategy", n))
 	}
 }
